@@ -254,3 +254,29 @@ pub fn enumerate_forced(trace_len: usize, threads: usize, k: usize, cap: usize) 
     }
     out
 }
+
+/// Run the thread bodies on real, unmanaged OS threads that are released together by a barrier:
+/// the operating system picks the interleaving (true parallelism on the host's cores).  Nothing
+/// is recorded and nothing is controlled; the caller repeats the run to widen the race windows.
+/// Complements `run`: a race window that contains no instrumented yield point (for example one
+/// introduced between two lock acquisitions) is invisible to the cooperative scheduler.
+pub fn run_free(programs: Vec<Box<dyn FnOnce() + Send>>) {
+    zipora::verif_hooks::set_yield_callback(None);
+    let barrier = Arc::new(std::sync::Barrier::new(programs.len()));
+    let mut handles = vec![];
+    for (i, f) in programs.into_iter().enumerate() {
+        let b = barrier.clone();
+        handles.push(
+            std::thread::Builder::new()
+                .name(format!("free-{i}"))
+                .spawn(move || {
+                    b.wait();
+                    let _ = crate::engine::try_call(f);
+                })
+                .expect("spawn thread"),
+        );
+    }
+    for h in handles {
+        let _ = h.join();
+    }
+}
